@@ -31,6 +31,7 @@ func (c *Ctx) c04Doc(idx int, noise bool) (*artRun, bool) {
 		prof := fullProfile()
 		prof.Skipped = true
 		prof.AttrNoise = noise
+		prof.MXSS = noise // C05 only
 		prof.MediaInText = true
 		return c.runArticle(idx, prof, nil)
 	}
@@ -148,7 +149,7 @@ func htmlTokensOutsidePlaceholders(n *html.Node) []string {
 
 func init() {
 	register(&Prop{
-		ID: "C04",
+		ID:   "C04",
 		Rule: "even cases: random G-article pages with every hidden carrier (script, style, comment, head, hidden attr, display:none, visibility:hidden/collapse, aria-hidden) and every skipped carrier (form, input, button, select, textarea, noscript, svg, object, embed, applet, unrecognised iframe) at random places incl. inline, data-table cells and captions; odd cases: the full grid 20 carrier kinds x 10 placements (top, between blocks, in p, in li, layout td, data td, figcaption with links, plain figcaption, figure body, inside a twitter quote). Non-trivial = the page produced output and contained a carrier; distinct = distinct (carrier kind, placement, table/figure retained or not).",
 		Assumptions: []string{
 			"the exemption 'nested inside a retained data table or figure' is decided from the ledger (carrier emitted while a data table / figure was open)",
